@@ -57,14 +57,14 @@ def extract(repo):
         n = common.find(tree, qual)
         for h in ast.walk(n) if n else []:
             if isinstance(h, ast.ExceptHandler) and h.type is not None and lc.strip_self(h.type) == exc:
-                return lc.body_nf(h.body)
+                return lc.body_nf_renamed(n, h.body)
         return []
     f['refusal_branch_request'] = handler_body('RPCSession._throttled_request', 'ExcessiveSessionCostError')
     f['refusal_branch_message'] = handler_body('MessageSession._throttled_message', 'ExcessiveSessionCostError')
     node = common.find(tree, 'RPCSession._throttled_request')
-    f['disconnect_tail'] = [f'if {lc.cmp_nf(st.test)}: ' + '; '.join(lc.body_nf(st.body))
-                            for st in (node.body if node else [])
-                            if isinstance(st, ast.If) and 'disconnect' in ast.unparse(st.test)]
+    # the statement that closes the session: `if <flag set by the refusal branch>: close`
+    f['disconnect_tail'] = [ln for ln in lc.body_nf_renamed(node, node.body if node else [])
+                            if ln.startswith('If:') and 'close' in ln]
     # sleep before the handler
     f['sleep_guard'] = []
     for qual in ('RPCSession._throttled_request', 'MessageSession._throttled_message'):
